@@ -108,6 +108,8 @@ pub struct Cfg {
     pub device_whiles: bool,
     /// input named `<bidir>_out` sharing a column with the bidirectional's expected value
     pub shared_cols: bool,
+    /// 61-67 extra one-bit inputs W0.. (headers of 65 and more columns)
+    pub wide_inputs: bool,
     /// virtual signal expressions may use random
     pub virtual_random: bool,
     /// variables and loop counters may be named like signals (Q, R, IO are in the pools)
@@ -165,6 +167,7 @@ impl Cfg {
             z_entries: true,
             device_whiles: true,
             shared_cols: false,
+            wide_inputs: false,
             virtual_random: false,
             vars_like_signals: true,
         }
@@ -278,6 +281,12 @@ pub fn gen_signals(ch: &mut Ch, cfg: &Cfg) -> Vec<Sig> {
                     kind: Kind::In(gen_default(ch, cfg.wild_defaults)),
                 });
             }
+        }
+    }
+    if cfg.wide_inputs {
+        let n = 61 + ch.upto(7);
+        for k in 0..n {
+            sigs.push(Sig { name: format!("W{k}"), bits: 1, kind: Kind::In(InVal::Val(0)) });
         }
     }
     if cfg.bus {
